@@ -35,13 +35,21 @@ impl SegmentFileWriter {
             header.set_payload_length(payload_length);
             header.set_record_id(record_id);
         }
+        #[cfg(nomt_verif)]
+        crate::verif_hook::begin(crate::verif_hook::Kind::Append, std::os::fd::AsRawFd::as_raw_fd(&self.file), self.file_size, HEADER_SIZE as u64, "seglog.write_header")?;
         self.file.write_all(&header)?;
+        #[cfg(nomt_verif)]
+        crate::verif_hook::end(crate::verif_hook::Kind::Append, std::os::fd::AsRawFd::as_raw_fd(&self.file), self.file_size, HEADER_SIZE as u64, "seglog.write_header");
         self.file_size += HEADER_SIZE as u64;
         Ok(())
     }
 
     pub fn write_payload(&mut self, payload: &[u8]) -> std::io::Result<()> {
+        #[cfg(nomt_verif)]
+        crate::verif_hook::begin(crate::verif_hook::Kind::Append, std::os::fd::AsRawFd::as_raw_fd(&self.file), self.file_size, payload.len() as u64, "seglog.write_payload")?;
         self.file.write_all(payload)?;
+        #[cfg(nomt_verif)]
+        crate::verif_hook::end(crate::verif_hook::Kind::Append, std::os::fd::AsRawFd::as_raw_fd(&self.file), self.file_size, payload.len() as u64, "seglog.write_payload");
         // Calculate the next aligned position.
         let record_alignment = RECORD_ALIGNMENT as u64;
         let current_end = self.file_size + payload.len() as u64;
@@ -52,14 +60,22 @@ impl SegmentFileWriter {
         };
         // The reason we are setting the length here is because otherwise if we just seek and not
         // set the length, then the underlying file may not be extended.
+        #[cfg(nomt_verif)]
+        crate::verif_hook::begin(crate::verif_hook::Kind::SetLen, std::os::fd::AsRawFd::as_raw_fd(&self.file), next_pos, 0, "seglog.pad")?;
         self.file.set_len(next_pos)?;
+        #[cfg(nomt_verif)]
+        crate::verif_hook::end(crate::verif_hook::Kind::SetLen, std::os::fd::AsRawFd::as_raw_fd(&self.file), next_pos, 0, "seglog.pad");
         self.file.seek(SeekFrom::Start(next_pos))?;
         self.file_size = next_pos;
         Ok(())
     }
 
     pub fn fsync(&mut self) -> std::io::Result<()> {
+        #[cfg(nomt_verif)]
+        crate::verif_hook::begin(crate::verif_hook::Kind::Fsync, std::os::fd::AsRawFd::as_raw_fd(&self.file), 0, 0, "seglog.fsync")?;
         self.file.sync_data()?;
+        #[cfg(nomt_verif)]
+        crate::verif_hook::end(crate::verif_hook::Kind::Fsync, std::os::fd::AsRawFd::as_raw_fd(&self.file), 0, 0, "seglog.fsync");
         Ok(())
     }
 
